@@ -69,22 +69,17 @@ class HEX(BinFormat):
                 mmap.write(k, v)
 
     def decode(self):
-        seg = 0
-        ela = 0
+        # the most recent extended (segment or linear) address record
+        # gives the base of the data records that follow it:
+        base = 0
         lines = []
         for l in self.L:
             if l.HEXcode == ExtendedSegmentAddress:
-                seg = l.base
+                base = l.base * 16
             elif l.HEXcode == ExtendedLinearAddress:
-                ela = l.ela
+                base = l.ela << 16
             elif l.HEXcode == Data:
-                if ela:
-                    address = (ela << 16) + l.address
-                elif seg:
-                    address = (seg * 16) + l.address
-                else:
-                    address = l.address
-                lines.append((address, l.data))
+                lines.append((base + l.address, l.data))
         m = MemoryMap()
         self.__lines = lines
         for k, v in lines:
